@@ -4,8 +4,10 @@
 //	        load = (gas used, |imports|, |extrinsics|, Σ extrinsic lengths, export count))        — GP 14.8
 //	spec    A(hash, bundle, exports) = (hash, |bundle|, erasure root, M(exports), |exports|)           — GP 14.16
 //
-// The erasure root is computed by the repository's code over a stand-in Reed-Solomon crate and is therefore not compared
-// with anything; it only has to be produced (no error, no panic, same value twice).
+// The erasure root u = M_B([H(b_c) ‖ M_B(s_c)]) over the chunks b_c of the padded bundle and the chunks s_c of the exported segments
+// followed by their paged proofs (GP 14.10, 14.16) is compared with a model that shares only the Reed-Solomon encoder with the code
+// (pkg/erasure_coding over the stand-in crate: the chunk bytes are that library's, C30's business); the paged proofs, the transposition
+// and both Merkle functions are the model's own.
 package c32
 
 import (
@@ -18,7 +20,82 @@ import (
 	"github.com/New-JAMneration/JAM-Protocol/internal/work_package"
 	"github.com/New-JAMneration/JAM-Protocol/internal/zzverif/refmerkle"
 	"github.com/New-JAMneration/JAM-Protocol/internal/zzverif/vh"
+	erasurecoding "github.com/New-JAMneration/JAM-Protocol/pkg/erasure_coding"
 )
+
+// modelPagedProofs: P(s) = [P_n(E(↕J_6(s,i), ↕L_6(s,i))) | i < ⌈|s|/64⌉] (GP 14.10), J_6 / L_6 over the constant-depth tree (E.5, E.6).
+func modelPagedProofs(exports [][]byte) [][]byte {
+	n := len(exports)
+	sz, lg := 1, 0
+	for sz < n {
+		sz, lg = sz*2, lg+1
+	}
+	cm := make([][]byte, sz)
+	for i := range cm {
+		cm[i] = make([]byte, 32)
+		if i < n {
+			x := refmerkle.Blake([]byte("leaf"), exports[i])
+			cm[i] = x[:]
+		}
+	}
+	var pages [][]byte
+	for i := 0; i < (n+63)/64; i++ {
+		var sib [][]byte
+		lo, hi, idx := 0, sz, 64*i
+		for hi-lo > 1 { // siblings on the way from the root down to leaf 64 i
+			mid := (lo + hi) / 2
+			if idx < mid {
+				sib = append(sib, refmerkle.N(cm[mid:hi], refmerkle.Blake))
+				hi = mid
+			} else {
+				sib = append(sib, refmerkle.N(cm[lo:mid], refmerkle.Blake))
+				lo = mid
+			}
+		}
+		j := sib[:max(0, lg-6)]
+		l := cm[64*i : min(64*i+64, n)]
+		page := make([]byte, 0, types.SegmentSize)
+		page = append(page, byte(len(j)))
+		for _, x := range j {
+			page = append(page, x...)
+		}
+		page = append(page, byte(len(l)))
+		for _, x := range l {
+			page = append(page, x...)
+		}
+		pages = append(pages, append(page, make([]byte, types.SegmentSize-len(page))...))
+	}
+	return pages
+}
+
+func modelErasureRoot(bundle []byte, exports [][]byte) (out [32]byte, err error) {
+	padded := append([]byte(nil), bundle...)
+	for len(padded)%types.ECBasicSize != 0 {
+		padded = append(padded, 0)
+	}
+	parity := types.TotalShards - types.DataShards
+	bsh, err := erasurecoding.EncodeDataShards(padded, types.DataShards, parity)
+	if err != nil {
+		return out, err
+	}
+	per := make([][][]byte, types.TotalShards)
+	for _, seg := range append(append([][]byte(nil), exports...), modelPagedProofs(exports)...) {
+		sh, err := erasurecoding.EncodeDataShards(append([]byte(nil), seg...), types.DataShards, parity)
+		if err != nil {
+			return out, err
+		}
+		for c := range per {
+			per[c] = append(per[c], sh[c])
+		}
+	}
+	merged := make([][]byte, types.TotalShards)
+	for c := range merged {
+		hb := refmerkle.Blake(bsh[c])
+		hs := refmerkle.MB(per[c], refmerkle.Blake)
+		merged[c] = append(append([]byte(nil), hb[:]...), hs[:]...)
+	}
+	return refmerkle.MB(merged, refmerkle.Blake), nil
+}
 
 func TestVerifC32(t *testing.T) {
 	h := vh.Open(t, "C32")
@@ -114,8 +191,8 @@ func TestVerifC32(t *testing.T) {
 		}
 		r := h.Rng("spec", ci)
 		ne := []int{0, 0, 1, 2, 3, 5, 8, 20}[r.IntN(8)]
-		if h.Thorough() && ci%40 == 0 {
-			ne = 63 + r.IntN(4)
+		if ci%4 == 0 { // around and beyond one page of 64 proofs: several pages, the last one shorter / full / one entry
+			ne = []int{63, 64, 65, 66, 100, 127, 128, 129, 130 + r.IntN(70), 65 + r.IntN(135)}[r.IntN(10)]
 		}
 		bundle := r.Bytes([]int{1, 2, 683, 684, 685, 4104, 10000}[r.IntN(7)])
 		h.Case("spec", ci, "", map[string]any{"exports": ne, "bundle_len": len(bundle)})
@@ -162,6 +239,18 @@ func TestVerifC32(t *testing.T) {
 			h.Viol("spec", ci, "", "package specification: exports root differs from M(exports)", d)
 		case spec != spec2:
 			h.Viol("spec", ci, "", "package specification: two computations on the same data differ", d)
+		default:
+			if u, merr := modelErasureRoot(bundle, leaves); merr != nil {
+				h.Inc("erasure_root_model_failed: " + merr.Error())
+			} else if u != [32]byte(spec.ErasureRoot) {
+				d["pages"] = (ne + 63) / 64
+				h.Viol("spec", ci, "", "package specification: erasure root differs from M_B over [H(bundle chunk) ‖ M_B(segment and paged-proof chunks)]", d)
+			} else {
+				h.Inc("erasure_roots_compared")
+				if ne > 64 {
+					h.Inc("erasure_roots_compared_with_several_proof_pages")
+				}
+			}
 		}
 		h.Inc("specs")
 		if ne == 0 {
